@@ -208,6 +208,14 @@ Proof.
   intros. unfold side_ok, side_ok_with. apply forallb_ext'. intros w. unfold witness_counts. rewrite !loc_dim_fast_eq. reflexivity.
 Qed.
 
+Lemma map_fst_filter_snd : forall {X Y} (f : X -> Y) (c : X -> bool) l,
+  map fst (filter snd (map (fun w => (f w, c w)) l)) = map f (filter c l).
+Proof. intros. induction l as [|a l IH]; [reflexivity|]. cbn [map filter snd]. destruct (c a); cbn [map fst]; rewrite IH; reflexivity. Qed.
+Lemma forallb_snd_map : forall {X Y} (f : X -> Y) (c : X -> bool) l, forallb snd (map (fun w => (f w, c w)) l) = forallb c l.
+Proof. intros. induction l as [|a l IH]; [reflexivity|]. cbn [map forallb snd]. rewrite IH. reflexivity. Qed.
+Theorem oracle_run_eq : forall r A B, oracle_run r A B = (relate_oracle r A B, side_ok r A B).
+Proof. intros. unfold oracle_run. rewrite map_fst_filter_snd, forallb_snd_map. reflexivity. Qed.
+
 (* ------------------------------------------------------------------ the entries are maxima over the witnesses *)
 (* w is a witness of dimension d located la in A and lb in B (codes 0 = Interior, 1 = Boundary, 2 = Exterior); a witness of
    dimension 2 is moreover open in both geometries *)
